@@ -148,9 +148,9 @@ CHECKS.update({
                 note=OTHER_NOTE),
     "C17": dict(cat="other", ref="DESIGN §8 C17, S.2",
                 text="The Jordan-Wigner sign loop of simplify_op proved on a mechanical slice (pyvc: the counters equal the number of (non-Z, Z) inversions, the factor is "
-                     "(-1)^inversions) with 2x2 matrix lemmas discharged by z3; Jordan-Wigner models vs an independent Fock-space fermionic reference (1..3(4) spatial orbitals, exhaustive sparsity patterns for 1-2), site swaps with and "
+                     "(-1)^inversions) with 2x2 matrix lemmas discharged by z3; Engine S: int_to_h and qc_model executed on indeterminate integrals (every support pattern of a small universe, flat / stacked, with / without particle numbers, 2..4(5) spin orbitals) equal the anticommuting-operator Hamiltonian written on bit strings for all integral values; Jordan-Wigner models vs an independent Fock-space fermionic reference (1..3(4) spatial orbitals, exhaustive sparsity patterns for 1-2), site swaps with and "
                      "without the JW remap vs P H P^T / F H F^T, OFS runs vs exact references; bounded; two recorded findings.",
-                technique="contract-based deductive verification (pyvc slice + z3 lemmas) of the sign bookkeeping; runtime contracts against an independent anticommuting-operator "
+                technique="contract-based deductive verification (pyvc slice + z3 lemmas) of the sign bookkeeping; exact symbolic execution of the real builders on indeterminate integrals (polynomial normal forms); runtime contracts against an independent anticommuting-operator "
                           "reference (bounded stand-in)",
                 note=OTHER_NOTE),
     "C18": dict(cat="other", ref="DESIGN §8 C18, 5.3, S.2",
@@ -225,7 +225,7 @@ def main():
             {"name": "pyvc", "path": "vk/pyvc", "serves_properties": ["C02", "C03", "C04", "C05", "C06", "C14", "C16", "C17", "C20"], "kind_free_text": "AST -> verification conditions (loop invariants, call by contract) -> z3/cvc5"},
             {"name": "exact-exec", "path": "vk/symx/exactexec.py", "serves_properties": ["C16", "C19"], "kind_free_text": "real source executed on exact rationals / z3 reals"},
             {"name": "effects", "path": "vk/pyvc/effects.py", "serves_properties": ["C13"], "kind_free_text": "alias / effect analysis of the real source against sidecar modifies clauses"},
-            {"name": "symx", "path": "vk/symx", "serves_properties": ["C01", "C02", "C03", "C04", "C06", "C07", "C08", "C09", "C10", "C11", "C12", "C14", "C15", "C18"], "kind_free_text": "real NumPy-level code executed on exact symbolic polynomial scalars; identities decided by normal form"},
+            {"name": "symx", "path": "vk/symx", "serves_properties": ["C01", "C02", "C03", "C04", "C06", "C07", "C08", "C09", "C10", "C11", "C12", "C14", "C15", "C17", "C18"], "kind_free_text": "real NumPy-level code executed on exact symbolic polynomial scalars; identities decided by normal form"},
             {"name": "rtc", "path": "vk/rtc", "serves_properties": ["C01", "C02", "C03", "C04", "C05", "C06", "C07", "C08", "C09", "C10", "C11", "C12", "C13", "C14", "C15", "C16", "C17", "C18", "C20"], "kind_free_text": "runtime contracts on the real functions, bounded-exhaustive inputs (bounded stand-in, never counted as proved)"},
         ],
         "checks": checks,
